@@ -129,4 +129,16 @@ PROPS = {
         "design_ref": "DESIGN.md 6/C10",
         "modelled": "seq/iter.go integerIter, stringIter, map/chan wrappers; unicode/utf8 as a Lean function; reflect.MapIter and channel receive as parameters",
     },
+    "C17": {
+        "module": "GoCo.Props.C17",
+        "theorems": ["GoCo.C17.C17_cex_depth_grows", "GoCo.C17.loop_steps", "GoCo.C17.C17_frames_are_transitions",
+                     "GoCo.runFast_eq_run"],
+        "corr": [("k2", None), ("k1", None)],
+        "search": [],
+        "level_text": "Frame model: every Go call in seq.go is a non-eliminated tail call, so the stack depth during an advance equals the number of machine transitions; K2 checks this equality against runtime.Callers at every thunk/condition/post callback of every small term with a loop and of random larger terms (exact match of depth profiles). Kernel-checked counterexample C17_cex_depth_grows: on this tree a loop of n non-yielding iterations pushes 4n frames for every n, i.e. the property is FALSE of the pinned runtime (open finding D5, replayed on every run). Any change that makes the runtime use more stack than the model breaks K2 and is reported with the term as replay.",
+        "level_note": RT_NOTE + " Byte sizes of frames and the 1 GB stack limit are not modelled; the statement is about the number of frames.",
+        "technique": "Lean 4 frame-count model of seq.go (depth = machine transitions) with a proved counterexample + exact depth-profile correspondence against runtime.Callers",
+        "design_ref": "DESIGN.md 6/C17",
+        "modelled": "the call structure of seq/seq.go: one frame per machine transition, thunks/conditions return before the next call",
+    },
 }
